@@ -3,6 +3,8 @@ package checks
 import (
 	"errors"
 	"fmt"
+	"github.com/tyler-sommer/stick/twig"
+	"net"
 	"reflect"
 	"sort"
 	"strings"
@@ -22,6 +24,11 @@ type c16S struct {
 	Field      string
 	unexported int
 	c16Emb
+	PtrNil   *c16Emb // exported fields that exist but hold nil
+	PtrSet   *c16Emb
+	SliceNil []int
+	MapNil   map[string]int
+	Iface    interface{}
 }
 
 func (s c16S) Method() string           { return "m" }
@@ -143,6 +150,16 @@ func structExp(ptr bool, self c16S) func(stick.Value, []stick.Value) c16Exp {
 			return noMethodArgs(args, c16Exp{accept: []stick.Value{self.Field}})
 		case "Emb":
 			return noMethodArgs(args, c16Exp{accept: []stick.Value{self.Emb}})
+		case "PtrNil": // the field exists: its (typed nil) value is the element
+			return noMethodArgs(args, c16Exp{accept: []stick.Value{(*c16Emb)(nil)}})
+		case "PtrSet":
+			return noMethodArgs(args, c16Exp{accept: []stick.Value{self.PtrSet}})
+		case "SliceNil":
+			return noMethodArgs(args, c16Exp{accept: []stick.Value{[]int(nil)}})
+		case "MapNil":
+			return noMethodArgs(args, c16Exp{accept: []stick.Value{map[string]int(nil)}})
+		case "Iface":
+			return noMethodArgs(args, c16Exp{accept: []stick.Value{nil}})
 		case "c16Emb":
 			return c16Exp{any: true} // embedded unexported type name: unspecified
 		case "Method":
@@ -316,7 +333,7 @@ func c16Containers() []c16Cont {
 	ss := []string{"a", "b"}
 	sv := []stick.Value{"x", nil, 3}
 	arr := [3]int{7, 8, 9}
-	s := c16S{"fv", 42, c16Emb{5}}
+	s := c16S{Field: "fv", unexported: 42, c16Emb: c16Emb{5}, PtrSet: &c16Emb{6}}
 	ps := &s
 	pps := &ps
 	toV := func(m interface{}) map[string]stick.Value {
@@ -437,7 +454,8 @@ func c16Containers() []c16Cont {
 func c16Keys() []stick.Value {
 	return []stick.Value{"k", "missing", "Field", "unexported", "Method", "PtrMethod", "Add", "Greet", "IntArg", "Var", "Join", "Two", "None", "Emb",
 		"", 0, 1, 2, -1, 3, 1.0, 1.5, "1", true, false, nil, int8(1), uint(2), "0", "true", []int{1},
-		c16KStr("k"), c16KI64(1), time.Duration(1), c16KBool(true), c16KF64(1.5), int64(1), 300, -200.0, uint64(1) << 63}
+		c16KStr("k"), c16KI64(1), time.Duration(1), c16KBool(true), c16KF64(1.5), int64(1), 300, -200.0, uint64(1) << 63,
+		"PtrNil", "PtrSet", "SliceNil", "MapNil", "Iface"}
 }
 
 func c16ArgLists() [][]stick.Value {
@@ -629,13 +647,103 @@ func c16Seqs() []c16Seq {
 		{"float64", func(n int) (stick.Value, []stick.Value, []stick.Value, bool, bool) {
 			return 1.5, nil, nil, false, false
 		}, false, 0},
+		// containers whose Go type also has a String method
+		{"named []string with String()", func(n int) (stick.Value, []stick.Value, []stick.Value, bool, bool) {
+			x := make(c16Tags, n)
+			v := make([]stick.Value, n)
+			for i := range x {
+				x[i] = "tag" + itoa(i)
+				v[i] = x[i]
+			}
+			return x, idxKeys(n), v, true, false
+		}, true, 8},
+		{"named map[string]int with String()", func(n int) (stick.Value, []stick.Value, []stick.Value, bool, bool) {
+			m := c16Counts{}
+			var ks, vs []stick.Value
+			for i := 0; i < n; i++ {
+				m["k"+itoa(i)] = 100 + i
+				ks = append(ks, "k"+itoa(i))
+				vs = append(vs, 100+i)
+			}
+			return m, ks, vs, false, true
+		}, true, 8},
+		{"net.IP", func(n int) (stick.Value, []stick.Value, []stick.Value, bool, bool) {
+			ip := make(net.IP, n)
+			v := make([]stick.Value, n)
+			for i := range ip {
+				ip[i] = byte(10 + i)
+				v[i] = ip[i]
+			}
+			return ip, idxKeys(n), v, true, false
+		}, true, 8},
+		{"pointer to named slice with pointer-receiver String()", func(n int) (stick.Value, []stick.Value, []stick.Value, bool, bool) {
+			x := make(c16PTags, n)
+			v := make([]stick.Value, n)
+			for i := range x {
+				x[i] = 7 * i
+				v[i] = x[i]
+			}
+			return &x, idxKeys(n), v, true, false
+		}, true, 8},
+		// maps with interface-typed keys of different kinds
+		{"map[interface{}]interface{} with int, string, float, bool and uint8 keys", func(n int) (stick.Value, []stick.Value, []stick.Value, bool, bool) {
+			m := map[interface{}]interface{}{}
+			var ks, vs []stick.Value
+			for i := 0; i < n; i++ {
+				var k interface{}
+				switch i % 5 {
+				case 0:
+					k = i
+				case 1:
+					k = "k" + itoa(i)
+				case 2:
+					k = float64(i) + 0.5
+				case 3:
+					k = i%2 == 1 && i > 5
+					if i > 3 {
+						k = uint8(i) // a second bool key would collide
+					}
+				default:
+					k = uint8(i)
+				}
+				m[k] = "v" + itoa(i)
+				ks = append(ks, k)
+				vs = append(vs, "v"+itoa(i))
+			}
+			return m, ks, vs, false, true
+		}, true, 8},
+		{"map[named string]int", func(n int) (stick.Value, []stick.Value, []stick.Value, bool, bool) {
+			m := map[c16KStr]int{}
+			var ks, vs []stick.Value
+			for i := 0; i < n; i++ {
+				m[c16KStr("k"+itoa(i))] = i
+				ks = append(ks, c16KStr("k"+itoa(i)))
+				vs = append(vs, i)
+			}
+			return m, ks, vs, false, true
+		}, true, 8},
 	}
 }
+
+type c16Tags []string
+
+func (t c16Tags) String() string { return strings.Join(t, ", ") }
+
+type c16Counts map[string]int
+
+func (c c16Counts) String() string { return fmt.Sprintf("counts(%d entries)", len(c)) }
+
+type c16PTags []int
+
+func (t *c16PTags) String() string { return fmt.Sprint([]int(*t)) }
 
 type c16Step struct {
 	k, v stick.Value
 	l    stick.Loop
 }
+
+// failTogether: the failing callback also asks to stop (as the executor's loop body does)
+var failTogether bool
 
 func tryIterate(v stick.Value, brkAt int, failAt int) (steps []c16Step, count int, err error, pan string) {
 	defer func() {
@@ -646,7 +754,7 @@ func tryIterate(v stick.Value, brkAt int, failAt int) (steps []c16Step, count in
 	count, err = stick.Iterate(v, func(k, val stick.Value, l stick.Loop) (bool, error) {
 		steps = append(steps, c16Step{k, val, l})
 		if len(steps)-1 == failAt {
-			return false, errors.New("stop")
+			return failTogether, errors.New("stop")
 		}
 		return len(steps)-1 == brkAt, nil
 	})
@@ -670,6 +778,7 @@ func c16Iter(si, n, brk, mode int) core.Result {
 			failAt = brk
 		}
 	}
+	failTogether = mode == 2
 	steps, count, err, pan := tryIterate(v, brkAt, failAt)
 	if pan != "" {
 		return core.Violation("panic", "Iterate over "+desc+" panicked: "+pan)
@@ -792,6 +901,33 @@ func c16Tpl(ci, ki int) core.Result {
 	return core.Okay(true, out+errStr(err))
 }
 
+// c16LenTpl: in a twig environment the length filter agrees with the traversal: {{ c|length }} is the number
+// of iterations of {% for v in c %}, which is the carrier's size.
+func c16LenTpl(si, n int) core.Result {
+	seqs := c16Seqs()
+	if si >= len(seqs) || !seqs[si].iter {
+		return core.Skipped("index")
+	}
+	v, _, _, _, _ := seqs[si].mk(n)
+	if v == nil {
+		return core.Skipped("nil-carrier")
+	}
+	env := twig.New(nil)
+	out, err, pan := tryExec(env, "{{ c|length }}|{% for v in c %}x{% endfor %}|", map[string]stick.Value{"c": v})
+	desc := fmt.Sprintf("{{ c|length }} and {%% for v in c %%} with c = %s of length %d", seqs[si].name, n)
+	if pan != "" {
+		return core.Violation("panic", desc+" panicked: "+pan)
+	}
+	if err != nil {
+		return core.Violation("error", desc+" fail: "+err.Error())
+	}
+	want := itoa(n) + "|" + strings.Repeat("x", n) + "|"
+	if out != want {
+		return core.Violation("length-disagrees", fmt.Sprintf("%s render %q, want %q...", desc, out, want))
+	}
+	return core.Okay(true, out)
+}
+
 func c16Levels(tier string) []core.Level {
 	return []core.Level{
 		{Name: "GetAttr: every container x every key x every argument list of length 0..2 (+ one of length 3)", Gen: func(emit func(core.Case)) {
@@ -804,14 +940,22 @@ func c16Levels(tier string) []core.Level {
 				}
 			}
 		}},
-		{Name: "Iterate/Len/Contains/IsIterable/IsArray/IsMap: every carrier x length 0..8 x {no break, break at i, error at i}", Gen: func(emit func(core.Case)) {
+		{Name: "Iterate/Len/Contains/IsIterable/IsArray/IsMap: every carrier x length 0..8 x {no break, break at i, error at i, error and break together at i}", Gen: func(emit func(core.Case)) {
 			for si, sq := range c16Seqs() {
 				for n := 0; n <= sq.maxN; n++ {
 					emit(core.Case{Fam: "iter", N: []int{si, n, -1, 0}})
 					for b := 0; b < n; b++ {
 						emit(core.Case{Fam: "iter", N: []int{si, n, b, 0}})
 						emit(core.Case{Fam: "iter", N: []int{si, n, b, 1}})
+						emit(core.Case{Fam: "iter", N: []int{si, n, b, 2}})
 					}
+				}
+			}
+		}},
+		{Name: "twig environment: {{ c|length }} equals the number of iterations of {% for v in c %} for every iterable carrier x length 0..8", Gen: func(emit func(core.Case)) {
+			for si, sq := range c16Seqs() {
+				for n := 0; n <= sq.maxN; n++ {
+					emit(core.Case{Fam: "len", N: []int{si, n}})
 				}
 			}
 		}},
@@ -834,6 +978,8 @@ func c16Run(c core.Case) core.Result {
 		return c16Iter(c.N[0], c.N[1], c.N[2], c.N[3])
 	case "tpl":
 		return c16Tpl(c.N[0], c.N[1])
+	case "len":
+		return c16LenTpl(c.N[0], c.N[1])
 	}
 	return core.Skipped("unknown-family")
 }
